@@ -1,7 +1,7 @@
 SPECIFICATION Spec
-CONSTANTS MaxOuts = 2
- MaxLines = 3
- Candidates = FALSE
+CONSTANTS MaxOuts = 0
+ MaxLines = 0
+ Candidates = TRUE
  Timeouts = FALSE
  TwoSteps = FALSE
  Export = TRUE
